@@ -503,6 +503,12 @@ def evalTls (p : Pending) (glob : Oracle) (obsToks : List String) : String :=
     s!"RES {p.prop} {p.id} eq={b ok} hm=1 hi={b ok} miss=0 crash={b (obsToks.contains "crash" || obsToks.contains "hang")}" ++
       (if ok then "" else " | x:44:01 | " ++ " ".intercalate obsToks)
   else
+  if p.toks.contains "chainbig" then
+    let ok := obsToks.contains "x:50:01" && !obsToks.contains "crash" && !obsToks.contains "hang"
+    let b (x : Bool) := if x then "1" else "0"
+    s!"RES {p.prop} {p.id} eq={b ok} hm=1 hi={b ok} miss=0 crash={b (obsToks.contains "crash" || obsToks.contains "hang")}" ++
+      (if ok then "" else " | x:50:01 | " ++ " ".intercalate obsToks)
+  else
   if p.toks.contains "chain" || p.toks.contains "bigbody" then
     -- over real sockets: a handler pacing itself on bytesWritten() delivers everything and closes (48); a response larger
     -- than every buffer arrives in full over TLS (49)
